@@ -364,6 +364,13 @@ class Inliner:
                     r = P.lookup_method(cq, f.attr)
                     if r is not None and getattr(r[1], "qual", None) in self.helpers:
                         return r[1], f.value
+            if not ref:
+                # `obj._helper(..)` on a local object: a new private method name that exists exactly once in the package
+                # (and in a class of the caller's module) can only be that method
+                cands = [h for h in self.helpers.values() if h.name == f.attr and h.cls is not None and h.parent is None and h.module is caller.module and _method_kind(h.node) == "method"]
+                others = [c for c in P.classes.values() if f.attr in c.methods and (not cands or c.methods[f.attr] is not cands[0])]
+                if len(cands) == 1 and not others and f.attr.startswith("_") and not f.attr.startswith("__"):
+                    return cands[0], f.value
         return None
 
     # ---------------------------------------------------------------- rewriting
